@@ -96,6 +96,13 @@ func (P *Prog) verifyWith(key string, c *Contract, opts VerifyOpts, solv *Solver
 		if v, ok := c.Config["maxrank_quick"]; ok && !opts.Thorough {
 			fmt.Sscanf(v, "%d", &maxRank)
 		}
+		if v, ok := c.Config["maxrank_thorough"]; ok && opts.Thorough {
+			var m int
+			fmt.Sscanf(v, "%d", &m)
+			if m < maxRank {
+				maxRank = m
+			}
+		}
 		if v, ok := c.Config["maxrank"]; ok {
 			var m int
 			fmt.Sscanf(v, "%d", &m)
